@@ -12,11 +12,11 @@ __attribute__((noinline)) int leaf(int x) {
     return y + 1;
 }
 __attribute__((noinline)) int middle(int x) {
-    int r = leaf(x) + 3;
+    int r = leaf(x + 100) + 3;
     return r;
 }
 __attribute__((noinline)) int outer(int x) {
-    int r = middle(x) + 5;
+    int r = middle(x + 10) + 5;
     return r;
 }
 int main(void) {
@@ -58,9 +58,13 @@ pub fn build() -> Result<Vec<(String, String)>, String> {
     Ok(out)
 }
 
+fn want_names(k: usize) -> &'static str {
+    ["leaf", "middle", "outer", "main"][k.min(3)]
+}
+
 pub fn part_c_frames(_tier: Tier) -> Part {
     let mut part = Part::new("c05_debug_frame_and_c_code");
-    part.rule = "a C program leaf <- middle <- outer <- main built four ways: {position independent, fixed address} x {unwind tables in .eh_frame, none (-fno-asynchronous-unwind-tables, .eh_frame removed): .debug_frame only}; stopped at a breakpoint in leaf the backtrace must name exactly leaf, middle, outer, main in this order (whatever follows main is not judged), the innermost frame at the real pc, and every further frame's address must lie inside the ELF symbol of the function it names, relocated by the load address of the executable".into();
+    part.rule = "a C program leaf <- middle <- outer <- main built four ways: {position independent, fixed address} x {unwind tables in .eh_frame, none (-fno-asynchronous-unwind-tables, .eh_frame removed): .debug_frame only}; stopped at a breakpoint in leaf the backtrace must name exactly leaf, middle, outer, main in this order (whatever follows main is not judged), the innermost frame at the real pc, and every further frame's address must lie inside the ELF symbol of the function it names, relocated by the load address of the executable; with each of the first three frames selected its parameter x must show the value that activation was called with (114, 14, 4: gcc addresses parameters off the CFA of the selected frame)".into();
     let bins = match build() {
         Ok(b) => b,
         Err(e) => {
@@ -74,7 +78,7 @@ pub fn part_c_frames(_tier: Tier) -> Part {
         pool.install(|| {
             bins.par_iter()
                 .map(|(name, exe)| {
-                    let cmds = vec![json!({"op": "break_fn", "name": "leaf"}), json!({"op": "start", "bt": true}), json!({"op": "sharedlibs"}), json!({"op": "continue"})];
+                    let cmds = vec![json!({"op": "break_fn", "name": "leaf"}), json!({"op": "start", "bt": true}), json!({"op": "sharedlibs"}), json!({"op": "values", "names": [], "derefs": [], "frames": 3}), json!({"op": "continue"})];
                     let run = crate::mt::session(exe, |obs| cmds.get(obs.len()).cloned(), Duration::from_secs(60), cmds.len());
                     ((name.clone(), exe.clone()), cmds, run)
                 })
@@ -87,7 +91,7 @@ pub fn part_c_frames(_tier: Tier) -> Part {
         part.states += run.obs.len() as u64;
         part.transitions += run.obs.len() as u64;
         part.traces_validated += 1;
-        if run.hang_at.is_some() || run.crashed.is_some() || run.obs.len() < 4 {
+        if run.hang_at.is_some() || run.crashed.is_some() || run.obs.len() < 5 {
             part.violate("C05:c-frames:session-broke", format!("[{name}] hang {:?} crash {:?}", run.hang_at, run.crashed), replay);
             continue;
         }
@@ -128,8 +132,19 @@ pub fn part_c_frames(_tier: Tier) -> Part {
             }
             part.distinct_nontrivial += 1;
         }
-        if run.obs[3]["res"]["kind"] != "exit" {
-            part.violate("C05:c-frames:program-did-not-finish", format!("[{name}] {}", run.obs[3]["res"]), replay.clone());
+        // the parameter `x` of every activation (gcc addresses it off DW_OP_call_frame_cfa: the
+        // CFA of the SELECTED frame): leaf 114, middle 14, outer 4
+        for (k, want) in [(0usize, "114"), (1, "14"), (2, "4")] {
+            let args = run.obs[3]["res"]["frames"][k]["args"]["Ok"].as_array().cloned().unwrap_or_default();
+            let got = args.iter().find(|a| a["name"] == "x").and_then(|a| a["v"]["v"].as_str().map(|s| s.to_string()));
+            if got.as_deref() != Some(want) {
+                part.violate(format!("C05:c-frames:parameter-of-selected-frame-wrong:{}", if k == 0 { "innermost" } else { "caller" }), format!("[{name}] frame {k} ({}): x shown as {got:?}, that activation was called with {want}", want_names(k)), replay.clone());
+            } else {
+                part.distinct_nontrivial += 1;
+            }
+        }
+        if run.obs[4]["res"]["kind"] != "exit" {
+            part.violate("C05:c-frames:program-did-not-finish", format!("[{name}] {}", run.obs[4]["res"]), replay.clone());
         }
     }
     part.bounds = json!({"binaries": 4, "frames": 4});
